@@ -31,8 +31,9 @@ Alphabet members and the code branch each one stands for
 
 Departures from DESIGN.md sec. 4 (C04), all additions except the last: a third memory member (dkmax2+tau), the 'block'
 system, coupling models with transform / degeneracy, two-site PT-TEBD density matrices; the constant of the
-tolerance is 50 (not 20): PT-TEBD norm and PT-TEMPO traces deviate by up to 8.4e-5 at epsrel=1e-5, and 30x head-room
-is required.  The mean-field producers run a reduced (alpha, memory) product in the quick tier (cost).
+tolerance is 100 (not 20): PT-TEMPO traces / PT-TEBD norms deviate by up to 1.04e-4 at epsrel=1e-5 and 6 steps and
+the Gibbs state is non-Hermitian by up to 4.5e-7 at epsrel=1e-8 and 24 steps (thorough tier), and 30x head-room is
+required; the epsrel=1e-8 leg (bound 6e-6 at six steps) is what resolves small defects.  The mean-field producers run a reduced (alpha, memory) product in the quick tier (cost).
 """
 import itertools
 import os
@@ -48,7 +49,7 @@ oq = bind_repo()
 LEVEL = "exploration"
 
 N_STEPS = 6
-C_TOL = 50.0          # tolerance = C_TOL * epsrel * number_of_steps  (DESIGN 2.7 policy; constant fixed by measurement)
+C_TOL = 100.0         # tolerance = C_TOL * epsrel * number_of_steps  (DESIGN 2.7 policy; constant fixed by measurement)
 EPS = (1e-5, 1e-8)
 TIGHT = 1e-3          # a case is 'PSD-tight' when lambda_min stays within TIGHT of zero at every step
 MOVE = 0.05           # the bath / dissipator must move the state by more than this for a case to count
@@ -92,7 +93,7 @@ STATES = ("pure", "mixed", "rankdef")
 MODELS_Q = ("d2x", "d3", "d3deg-u")
 MODELS_T = ("d2z", "d2x", "d2z-u", "d3", "d3deg-u", "d3rot")
 GRIDS_Q = (("ohmic-exp", 0.2),)                            # (spectral density, dt)
-GRIDS_T = (("ohmic-exp", 0.2), ("super-gauss", 0.07))
+GRIDS_T = (("ohmic-exp", 0.2), ("super-gauss", 0.1))
 # the mean-field producers cost 0.4 s per run (adaptive integration of the field-dependent Liouvillian for two
 # systems): in the quick tier they get the extreme couplings and the two memory branches that differ most
 MF_ALPHAS_Q = (0.1, 1.5)
@@ -203,7 +204,7 @@ def get_sd(sd, alpha, temp):
             _CACHE[key] = oq.PowerLawSD(alpha=alpha, zeta=1.0, cutoff=3.0, cutoff_type="exponential",
                                         temperature=temp)
         elif sd == "super-gauss":
-            _CACHE[key] = oq.PowerLawSD(alpha=alpha, zeta=3.0, cutoff=2.0, cutoff_type="gaussian", temperature=temp)
+            _CACHE[key] = oq.PowerLawSD(alpha=alpha, zeta=3.0, cutoff=4.0, cutoff_type="gaussian", temperature=temp)
         else:
             raise ValueError(sd)
     return _CACHE[key]
@@ -727,7 +728,7 @@ def run(tier, seed):
     rep.assumptions = [
         "oracle = the invariant itself: trace one, Hermitian, (full memory) positive semidefinite, each up to "
         f"{C_TOL:g}*epsrel*steps; both epsrel legs (1e-5, 1e-8) must hold, so an error that does not shrink with epsrel "
-        "is caught at 1.2e-6",
+        f"is caught from {C_TOL * min(EPS) * N_STEPS:.1e} on",
         "positivity is only asserted when no memory cut-off is set (dkmax=None); with a cut-off the smallest eigenvalue "
         "is recorded but not judged",
         "PT-TEBD site density matrices are reported unnormalised by the library (their trace equals results['norm']); "
